@@ -112,6 +112,7 @@ class Helper:
         self.defaults = dict(zip(self.params[len(self.params) - len(a.defaults):], a.defaults))
         self.defaults.update({k.arg: d for k, d in zip(a.kwonlyargs, a.kw_defaults) if d is not None})
         self.npos = len(a.posonlyargs)
+        self.kwarg = a.kwarg.arg if a.kwarg else None
         self.uses = 0
 
     def eligible(self):
@@ -120,8 +121,20 @@ class Helper:
             return False
         if any(not (isinstance(d, ast.Name) and d.id == "staticmethod") for d in n.decorator_list):
             return False
-        if n.args.vararg or n.args.kwarg:
+        if n.args.vararg:
             return False
+        if n.args.kwarg:
+            # **options is fine when the helper only hands it on as **options: the extra keywords of the call site take its place
+            kw = n.args.kwarg.arg
+            for x in ast.walk(n):
+                if isinstance(x, ast.Name) and x.id == kw:
+                    par = getattr(x, "_kwparent", None)
+                    if par is None:
+                        for c in ast.walk(n):
+                            if isinstance(c, ast.keyword) and c.arg is None and c.value is x:
+                                par = c
+                    if par is None:
+                        return False
         if self.is_method and not self.params:
             return False
         for x in _body_nodes(self.body):
@@ -213,10 +226,15 @@ def _bind(helper, call, receiver):
         raise Unsupported("too many positional arguments")
     for p, a in zip(pos, call.args):
         bound[p] = a
+    extra = []
     for k in call.keywords:
+        if k.arg not in bound and k.arg not in params + helper.kwonly and helper.kwarg:
+            extra.append(k)
+            continue
         if k.arg in bound or k.arg not in params + helper.kwonly or k.arg in params[:helper.npos]:
             raise Unsupported("keyword does not bind")
         bound[k.arg] = k.value
+    helper._extra = extra
     out = []
     for p in params + helper.kwonly:
         if p in bound:
@@ -366,6 +384,8 @@ class Inliner:
     def _expand_expr(self, helper, call, receiver):
         """expression helper: the call becomes the returned expression with the arguments in place of the parameters"""
         expr = helper.expression()
+        if helper.kwarg:
+            raise Unsupported("**options in an expression helper")
         binds = _bind(helper, call, receiver)
         ren = {}
         inner = _inner_bound([ast.Expr(expr)])
@@ -399,6 +419,18 @@ class Inliner:
             if loc not in ren:
                 ren[loc] = f"{loc}_inl{n}" if ((loc in caller_names and loc not in keep) or loc in arg_names) else loc
         body = [_Subst(ren).visit(copy.deepcopy(st)) for st in helper.body]
+        if helper.kwarg:
+            extra = getattr(helper, "_extra", [])
+            for st in body:
+                for c in ast.walk(st):
+                    if isinstance(c, ast.Call):
+                        new = []
+                        for k in c.keywords:
+                            if k.arg is None and isinstance(k.value, ast.Name) and k.value.id == helper.kwarg:
+                                new += [ast.keyword(arg=x.arg, value=copy.deepcopy(x.value)) for x in extra]
+                            else:
+                                new.append(k)
+                        c.keywords = new
         return pro, body
 
     def _tailify(self, stmts, emit):
@@ -784,21 +816,31 @@ def unroll_object_loops(trees):
                     block(blk, fq)
             for hd in getattr(st, "handlers", []) or []:
                 block(hd.body, fq)
-            if (isinstance(st, ast.For) and isinstance(st.target, ast.Name) and isinstance(st.iter, (ast.Tuple, ast.List)) and not st.orelse
-                    and 1 <= len(st.iter.elts) <= 6 and all(_ref_chain(e) for e in st.iter.elts)):
+            it = st.iter if isinstance(st, ast.For) else None
+            if isinstance(it, ast.Name):
+                # a name bound once, in this block, to a literal tuple / list
+                defs = [p.value for p in stmts[:i] if isinstance(p, ast.Assign) and len(p.targets) == 1 and isinstance(p.targets[0], ast.Name) and p.targets[0].id == it.id]
+                stores = sum(1 for p in stmts for n in ast.walk(p) if isinstance(n, ast.Name) and n.id == it.id and not isinstance(n.ctx, ast.Load))
+                it = defs[0] if len(defs) == 1 and stores == 1 else None
+            dicts = isinstance(it, (ast.Tuple, ast.List)) and it.elts and all(
+                isinstance(e, ast.Dict) and all(isinstance(k, ast.Constant) and isinstance(k.value, str) and isinstance(v_, ast.Constant) for k, v_ in zip(e.keys, e.values))
+                for e in it.elts)
+            if (isinstance(st, ast.For) and isinstance(st.target, ast.Name) and isinstance(it, (ast.Tuple, ast.List)) and not st.orelse
+                    and 1 <= len(it.elts) <= 6 and (all(_ref_chain(e) for e in it.elts) or dicts)):
                 v = st.target.id
                 inner = [n for b in st.body for n in ast.walk(b)]
                 bad = any(isinstance(n, (ast.Break, ast.Continue, ast.Return, ast.FunctionDef, ast.Lambda, ast.AsyncFunctionDef, ast.Global, ast.Nonlocal)) for n in inner) \
                     or any(isinstance(n, ast.Name) and n.id == v and not isinstance(n.ctx, ast.Load) for n in inner) \
                     or any(isinstance(n, ast.comprehension) and any(isinstance(m, ast.Name) and m.id == v for m in ast.walk(n.target)) for n in inner) \
-                    or _stores_to(st.body, st.iter.elts)
+                    or (not dicts and _stores_to(st.body, it.elts))
                 # the variable must not be read after the loop
                 later = [n for s_ in stmts[i + 1:] for n in ast.walk(s_) if isinstance(n, ast.Name) and n.id == v]
                 if not bad and not later:
                     new = []
-                    for e in st.iter.elts:
+                    for e in it.elts:
                         for b in st.body:
                             nb = _Alias(v, _as_load(e)).visit(copy.deepcopy(b))
+                            _expand_star_dicts(nb)
                             ast.fix_missing_locations(ast.copy_location(nb, b))
                             for y in ast.walk(nb):
                                 if not hasattr(y, "lineno") and isinstance(y, (ast.expr, ast.stmt)):
@@ -810,10 +852,24 @@ def unroll_object_loops(trees):
             i += 1
 
     for m, t in trees.items():
+        block(t.body, f"{m}:<module>")
         for n in ast.walk(t):
             if isinstance(n, (ast.FunctionDef, ast.AsyncFunctionDef)):
                 block(n.body, f"{m}:{n.name}")
     return log
+
+
+def _expand_star_dicts(node):
+    """f(**{"a": x}) is f(a=x)"""
+    for c in ast.walk(node):
+        if isinstance(c, ast.Call):
+            new = []
+            for k in c.keywords:
+                if k.arg is None and isinstance(k.value, ast.Dict) and k.value.keys and all(isinstance(q, ast.Constant) and isinstance(q.value, str) and q.value.isidentifier() for q in k.value.keys):
+                    new += [ast.keyword(arg=q.value, value=v_) for q, v_ in zip(k.value.keys, k.value.values)]
+                else:
+                    new.append(k)
+            c.keywords = new
 
 
 # ---- list-building loops ---------------------------------------------------------------------------------------------------------
